@@ -44,6 +44,9 @@ def run(prog, rep, tier):
     r17_6(prog, rep)
     from . import shared
     shared.dtype_narrowing(prog, rep, "R17.7")
+    # slices are computed from the evaluated term data, labels from the components' remembered coding: the two agree (equal
+    # in number, slices cover the columns) only while every component object belongs to one term (C06's R6.4), here R17.8
+    shared.ownership_rule(prog, rep, "R17.8")
     rep.floor("R17.1", 18)
     rep.floor("R17.3", 8)
     rep.floor("R17.5", 10)
